@@ -13,7 +13,7 @@ import tempfile
 import numpy as np
 
 from mc.oracles import axioms
-from mc.runner import Result, horizon, Horizon, VERIF
+from mc.runner import Result, horizon, Horizon, VERIF, scratch_dir
 
 ID = "C19"
 TITLE = "save/load round trip preserves state and predictions"
@@ -47,6 +47,8 @@ def bounds(tier):
     return {"kinds": KINDS, "metrics_feature_mode": 47,
             "metrics_precomputed_mode": 47 if tier == "thorough" else PRE_QUICK,
             "datasets": 2, "depth": 3 if tier == "quick" else 4,
+            "deep_sequences": "4 kinds x default metric%s: every enabled sequence of length <= %d, all "
+                              "saves going to the same path" % ((" + 2 metrics", 6) if tier == "thorough" else ("", 5)),
             "separate_interpreter": "all configs" if tier == "thorough" else "4 kinds x 2 metrics"}
 
 
@@ -61,6 +63,10 @@ def plan(tier, seed):
     for kind in KINDS:
         for mt in (axioms.NAMES if tier == "thorough" else ["log_squared_euclidean", "canberra"]):
             shards.append(("proc", kind, mt))
+    # longer histories (save / mutate by predicting / save again to the same path / load ...)
+    for kind in KINDS:
+        for mt in (["log_squared_euclidean"] if tier == "quick" else ["log_squared_euclidean", "canberra", "euclidean"]):
+            shards.append(("seq", kind, mt, "features", 5 if tier == "quick" else 6))
     return shards
 
 
@@ -174,7 +180,7 @@ def fn_behaviour(m, ds):
 
 def run_sequence(kind, metric, mode, di, seq, seed, res=None):
     ds = DATASETS[di]
-    tmpdir = tempfile.mkdtemp(prefix="c19-", dir="/var/tmp")
+    tmpdir = tempfile.mkdtemp(prefix="c19-", dir=scratch_dir())
     try:
         try:
             orig = fit_original(kind, metric, mode, ds, tmpdir, seed)
@@ -192,7 +198,7 @@ def run_sequence(kind, metric, mode, di, seq, seed, res=None):
                 if op == "save":
                     before = full_state(orig)
                     nfile += 1
-                    path = os.path.join(tmpdir, "m%d.pkl" % nfile)
+                    path = os.path.join(tmpdir, "model.pkl")   # always the same path: later saves overwrite
                     orig.save(path)
                     if full_state(orig) != before:
                         return ("saving altered the original (%s)" % diff_fields(before, full_state(orig)),
@@ -221,7 +227,7 @@ def run_sequence(kind, metric, mode, di, seq, seed, res=None):
                 elif op == "save_loaded":
                     before = full_state(loaded)
                     nfile += 1
-                    path = os.path.join(tmpdir, "m%d.pkl" % nfile)
+                    path = os.path.join(tmpdir, "model.pkl")
                     loaded.save(path)
                     if full_state(loaded) != before:
                         return "saving altered the (loaded) model", "save alters the original"
@@ -273,7 +279,7 @@ def run_proc(kind, metric, seed, res):
     """Load in a separate interpreter; predictions must equal the original's."""
     repo = sys.path[0]
     for di, ds in enumerate(DATASETS):
-        tmpdir = tempfile.mkdtemp(prefix="c19-", dir="/var/tmp")
+        tmpdir = tempfile.mkdtemp(prefix="c19-", dir=scratch_dir())
         try:
             orig = fit_original(kind, metric, "features", ds, tmpdir, seed)
             path = os.path.join(tmpdir, "m.pkl")
